@@ -2,13 +2,16 @@ package main
 
 import (
 	"bytes"
+	"context"
 	"encoding/gob"
 	"encoding/json"
 	"fmt"
 	"os"
 	"os/exec"
+	"sort"
 	"strings"
 	"sync"
+	"time"
 
 	"github.com/go-openapi/jsonpointer"
 	"github.com/go-openapi/spec"
@@ -56,6 +59,7 @@ func c17Scenarios() []c17Scenario {
 		{Name: "gob-and-json-encode-shared-document", Threads: []c17Op{{Kind: "GobEncode", Variant: 3}, {Kind: "GobEncode", Variant: 3}, {Kind: "Marshal", Variant: 3}}},
 		{Name: "shared-cache-schemas-with-an-id", Threads: []c17Op{{Kind: "ExpandSchemaWithBasePath", Variant: 101, Elem: "/definitions/A", Cache: "shared"}, {Kind: "ExpandSchemaWithBasePath", Variant: 101, Elem: "/definitions/A", Cache: "shared"}}},
 		{Name: "ill-formed-locations-and-ids", Threads: []c17Op{{Kind: "IllFormed", Variant: 1}, {Kind: "IllFormed", Variant: 2}}},
+		{Name: "loaders-that-expand-before-they-answer", Threads: []c17Op{{Kind: "NestedLoad", Variant: 2}, {Kind: "NestedLoad", Variant: 2}}},
 		{Name: "first-calls-race-on-lazy-init", Fresh: true, Threads: []c17Op{{Kind: "MetaExpand"}, {Kind: "ExpandSpec", Variant: 2}}},
 	}
 }
@@ -101,7 +105,8 @@ func c17Body(op c17Op, sh *c17Shared) func() interface{} {
 			return fmt.Sprintf("err=%v %x", err, sha(bb))
 		case "Lookup":
 			var out []string
-			for _, p := range []string{"/definitions/N0/items", "/paths/~1p/get/responses/200/schema", "/definitions/N1/title", "/parameters/P/name", "/plain-key", "/definitions/N0/plain", "/x-ext", "/definitions/Ordered/properties/alpha/x-order", "/definitions/Ordered/properties/gamma/x-order"} {
+			for _, p := range []string{"/definitions/N0/items", "/paths/~1p/get/responses/200/schema", "/definitions/N1/title", "/parameters/P/name", "/plain-key", "/definitions/N0/plain", "/x-ext", "/definitions/Ordered/properties/alpha/x-order", "/definitions/Ordered/properties/gamma/x-order",
+				"/definitions/Ordered/required/1", "/definitions/Ordered/required/2", "/definitions/Ordered/required/4", "/definitions/Ordered/enum/2", "/definitions/Ordered/type/2"} {
 				ptr, _ := jsonpointer.New(p)
 				v, _, err := ptr.Get(sh.doc)
 				bb, _ := json.Marshal(v)
@@ -129,6 +134,28 @@ func c17Body(op c17Op, sh *c17Shared) func() interface{} {
 			}
 			err := spec.ExpandSchemaWithBasePath(&s, nil, &spec.ExpandOptions{RelativeBase: base, PathLoader: loader})
 			bb, _ := json.Marshal(s)
+			return fmt.Sprintf("err=%v loads=%v out=%s", err, loads, bb)
+		case "NestedLoad":
+			// a loader that itself expands another document before it answers (a server that builds what it serves)
+			var loads []string
+			inner := cs.loader(&loads)
+			depth := 0
+			var loader func(string) (json.RawMessage, error)
+			loader = func(p string) (json.RawMessage, error) {
+				if depth == 0 {
+					depth++
+					var s2 spec.Schema
+					json.Unmarshal([]byte(`{"$ref":"`+docURLs[1]+`#/definitions/N1"}`), &s2)
+					_ = spec.ExpandSchemaWithBasePath(&s2, nil, &spec.ExpandOptions{RelativeBase: docURLs[0], PathLoader: loader})
+					depth--
+				}
+				return inner(p)
+			}
+			var s spec.Schema
+			json.Unmarshal([]byte(`{"properties":{"a":{"$ref":"sib.json#/definitions/N1"}}}`), &s)
+			err := spec.ExpandSchemaWithBasePath(&s, nil, &spec.ExpandOptions{RelativeBase: docURLs[0], PathLoader: loader})
+			bb, _ := json.Marshal(s)
+			sort.Strings(loads)
 			return fmt.Sprintf("err=%v loads=%v out=%s", err, loads, bb)
 		case "MetaLoadExpand":
 			// what a validator does: load "its" copy of a built-in meta-schema and expand it in place
@@ -200,7 +227,7 @@ func c17Setup(sc c17Scenario) *c17Shared {
 			}
 			// properties ordered by x-order values of several JSON types (the encoder reads them while sorting)
 			var ordered spec.Schema
-			json.Unmarshal([]byte(`{"title":"ordered","properties":{"alpha":{"x-order":"10"},"beta":{"x-order":"2"},"gamma":{"x-order":3},"delta":{"title":"unordered"}}}`), &ordered)
+			json.Unmarshal([]byte(`{"title":"ordered","required":["id","name","id","alpha","name"],"enum":["b","a","b"],"type":["string","null","string"],"properties":{"alpha":{"x-order":"10"},"beta":{"x-order":"2"},"gamma":{"x-order":3},"delta":{"title":"unordered"}}}`), &ordered)
 			if sh.doc.Definitions == nil {
 				sh.doc.Definitions = spec.Definitions{}
 			}
@@ -575,7 +602,15 @@ func racePassMain(args []string) {
 				}
 			}
 			close(start)
-			wg.Wait()
+			// one round takes milliseconds: a round that is not over after a minute will never be (deadlock)
+			done := make(chan struct{})
+			go func() { wg.Wait(); close(done) }()
+			select {
+			case <-done:
+			case <-time.After(60 * time.Second):
+				fmt.Fprintf(os.Stderr, "FREE-RUNNING HANG: scenario %s, round %d: the goroutines did not finish within a minute\n", sc.Name, i)
+				os.Exit(67)
+			}
 			n++
 		}
 	}
@@ -599,13 +634,28 @@ func c17RacePass(quick bool) (res c17RaceResult) {
 	if !quick {
 		iters = "150"
 	}
+	limit := 20 * time.Minute // fallback only: the pass itself gives up on a round that lasts a minute
+	if !quick {
+		limit = 35 * time.Minute
+	}
 	for _, procs := range []string{"2", "16"} {
-		cmd := exec.Command(bin, "racepass", iters)
+		// the pass is bounded: free-running threads that wait for each other for ever are a deadlock, not a reason to wait
+		ctx, cancel := context.WithTimeout(context.Background(), limit)
+		cmd := exec.CommandContext(ctx, bin, "racepass", iters)
 		cmd.Env = append(os.Environ(), "GOMAXPROCS="+procs, "GORACE=halt_on_error=1 exitcode=66")
 		var stderr bytes.Buffer
 		cmd.Stderr = &stderr
+		cmd.WaitDelay = 5 * time.Second
 		_, err := cmd.Output()
+		hung := ctx.Err() == context.DeadlineExceeded || strings.Contains(stderr.String(), "FREE-RUNNING HANG")
+		cancel()
 		res.passes++
+		if hung {
+			res.viols = append(res.viols, Violation{Oracle: "concurrency", Class: "hang(free-running pass)", Detail: "the free-running pass did not finish within " + limit.String() + ": " + tail(stderr.String(), 1500),
+				Features: map[string]string{"symptom": "free-running-hang", "sigx": "GOMAXPROCS=" + procs},
+				Case:     map[string]interface{}{"racepass": true, "gomaxprocs": procs, "note": "free-running schedule: re-run `vcheck-race racepass`"}})
+			return
+		}
 		if err != nil && strings.Contains(stderr.String(), "DATA RACE") {
 			res.viols = append(res.viols, Violation{Oracle: "concurrency", Class: "data-race(go race detector, free-running)", Detail: tail(stderr.String(), 3000),
 				Features: map[string]string{"symptom": "data-race-detector", "sigx": "GOMAXPROCS=" + procs},
